@@ -2,7 +2,7 @@
 
 Implementation under test: DenseAdditiveLinearGenomicModel.usl/lsl/usl_numpy/lsl_numpy/gebv/gebv_numpy,
 the afreq() they call, select_taxa, and the seven mating protocols driven by real numpy generators.
-Model: Model/SelLimit.lean (`c10.limits`, `c10.mate`); Spec: `c10.spec` evaluated on the implementation's
+Model: Model/SelLimit.lean (`c10.limits` - also for a model object with a history of in-place edits -, `c10.mate`); Spec: `c10.spec` evaluated on the implementation's
 whole trajectory (raw genotypes of every generation + reported limits and breeding values).
 """
 import contextlib
@@ -160,7 +160,12 @@ class C10(Prop):
             "genotypes recorded for founders, every selected parent set and every progeny set, the limits ALSO through the "
             "ndarray form with the default ploidy.  uhist: unphased (ploidy 1/2/4/6) and phased non-diploid (1/3/4 phases) "
             "populations through 1-3 rounds of select_taxa / delete_taxa / remove_taxa.  wide: every protocol with int8 .. "
-            "uint64 index arrays on 120 x 7 and 240 x 300 founders.  Non-trivial = some "
+            "uint64 index arrays on 120 x 7 and 240 x 300 founders.  Model object (every kind, each with probability "
+            "0.35): miscellaneous random effects u_misc of 1 .. nv+1 rows in the constructor; a multi-step use of ONE model "
+            "object - constructed, optionally asked for limits/values once, then u_a (and beta) edited IN PLACE (a trait's "
+            "column multiplied by -1/-2/-1/2/0/2, single effects overwritten, a constant added) through the getter's array, "
+            "through the array handed to the constructor, or re-assigned through the setter, optionally copy()/deepcopy()ed "
+            "- before the limits and values of the case are requested.  Non-trivial = some "
             "locus polymorphic and some effect non-zero (static) / at least one allele lost along the history "
             "(programme, uhist)")
     TRUSTED = ["numpy generators (their draws are recorded and replayed through the model for small cases)",
@@ -169,7 +174,14 @@ class C10(Prop):
                    "effects and fixed effects are small dyadic rationals, so the limits are exact in binary64",
                    "cross configurations index the selected parent set (valid indices, possibly negative = from the end)",
                    "usl(Z) / lsl(Z) without a ploidy argument are only requested for diploid dosage matrices (the "
-                   "documented default is 2)"]
+                   "documented default is 2)",
+                   "the model is edited only BEFORE the first population of a history is evaluated (one additive model per "
+                   "history, as the property's quantifier says); edits keep shape and dtype (float64) of u_a / beta",
+                   "u_misc: no modelled function takes it (the code's usl/lsl/gebv do not read it) - that it has no influence "
+                   "is checked by correspondence and by the Spec on the implementation's outputs only; in Lean only "
+                   "C10.marker_block_of_u relates it to u_a",
+                   "which Python object aliases which (getter / constructor array / copy) is harness-level: the Lean model of "
+                   "the object history (SelLimit.ModelObj, applyEdits) is the sequence of array states"]
 
     # ------------------------------------------------------------------ generation helpers
     @staticmethod
@@ -203,7 +215,49 @@ class C10(Prop):
         U = [[rng.choice(vals) for _ in range(ntrait)] for _ in range(nv)]
         q = rng.choice([1, 1, 2, 3])
         beta = [[rng.choice([0, 0, 1, -3, 10, Fraction(5, 2)]) for _ in range(ntrait)] for _ in range(q)]
-        return ntrait, canon.enc(U), canon.enc(beta)
+        extras = {}
+        if rng.random() < 0.35:
+            # miscellaneous random effects (p_misc x t): part of the model's `u` vector, read by no limit / value
+            pm = rng.choice([1, 1, 2, 3, nv, nv + 1])
+            extras["u_misc"] = canon.enc([[rng.choice(vals + [5, -4]) for _ in range(ntrait)] for _ in range(pm)])
+        if rng.random() < 0.35:
+            # a multi-step use of ONE model object: constructed with U0 / beta0, (optionally asked for limits once),
+            # then edited IN PLACE through the getter's array / the array handed to the constructor (the model aliases
+            # it) / re-assigned through the setter, (optionally copied); U / beta below are the effects AFTER the edits
+            eu, eb = [], []
+            for _ in range(rng.choice([1, 1, 2, 3])):
+                c = rng.random()
+                if c < 0.45:        # turn a trait around ('lower is better'): every sign of the column flips
+                    eu.append({"op": "scale_col", "t": rng.randrange(ntrait), "c": rng.choice([-1, -1, -1, -2, Fraction(-1, 2), 0, 2])})
+                elif c < 0.8:
+                    eu.append({"op": "set", "j": rng.randrange(nv), "t": rng.randrange(ntrait), "v": rng.choice(vals)})
+                else:
+                    eu.append({"op": "add", "v": rng.choice([1, -1, Fraction(1, 2), -2, Fraction(-5, 2)])})
+            if rng.random() < 0.4:
+                eb.append(rng.choice([{"op": "add", "v": rng.choice([1, -2, Fraction(1, 2)])},
+                                      {"op": "scale_col", "t": rng.randrange(ntrait), "c": rng.choice([-1, 2, 0])},
+                                      {"op": "set", "j": rng.randrange(q), "t": rng.randrange(ntrait), "v": rng.choice([7, -1, 0])}]))
+            extras["model_ops"] = {"U0": canon.enc(U), "beta0": canon.enc(beta), "edits_u": canon.enc(eu), "edits_b": canon.enc(eb),
+                                   "via": rng.choice(["getter", "getter", "ctor", "setter"]),
+                                   "prime": rng.random() < 0.6, "then": rng.choice([None, None, "copy", "deepcopy"])}
+            U, beta = C10._apply_edits(U, eu), C10._apply_edits(beta, eb)
+        return ntrait, canon.enc(U), canon.enc(beta), extras
+
+    @staticmethod
+    def _apply_edits(M, edits):
+        """the matrix after the in-place edits, in exact arithmetic (mirror of SelLimit.applyEdits)"""
+        M = [[Fraction(v) for v in r] for r in M]
+        for e in edits:
+            if e["op"] == "scale_col":
+                for r in M:
+                    r[e["t"]] = r[e["t"]] * Fraction(e["c"])
+            elif e["op"] == "set":
+                M[e["j"]][e["t"]] = Fraction(e["v"])
+            elif e["op"] == "add":
+                M = [[v + Fraction(e["v"]) for v in r] for r in M]
+            else:
+                raise ValueError(e["op"])
+        return M
 
     @staticmethod
     def _meta(rng, nt, nv):
@@ -238,7 +292,7 @@ class C10(Prop):
         pats = [rng.choice(["one", "zero"] if fixed_only else
                            ["one", "zero", "one_off", "zero_off", "het", "rand", "rand"]) for _ in range(nv)]
         loci = [self._locus(rng, n, k, p) for p in pats]
-        ntrait, U, beta = self._model(rng, nv)
+        ntrait, U, beta, extras = self._model(rng, nv)
         rows = [[loci[j][i] for j in range(nv)] for i in range(n)]        # [taxon][locus][copy]
         if not fixed_only and n >= 3:
             # a best and a worst genotype for trait 0 among the alleles present (makes the bracket tight)
@@ -254,6 +308,7 @@ class C10(Prop):
         else:
             pop = {"nt": n, "ploidy": k, "Z": [[sum(rows[i][j]) for j in range(nv)] for i in range(n)]}
         c = {"kind": "static", "path": kind, "nv": nv, "ntrait": ntrait, "U": U, "beta": beta, "pop": pop}
+        c.update(extras)
         if kind == "ndarray" and k == 2 and rng.random() < 0.5:
             c["noploidy"] = True            # usl(Z) / lsl(Z): the documented default ploidy is 2
         if kind != "ndarray" and rng.random() < 0.4:
@@ -290,7 +345,7 @@ class C10(Prop):
             G[1] = [[0] * nv for _ in range(n0)]
             if not any(any(r) for r in G[0]):
                 G[0][0] = [1] * nv
-        ntrait, U, beta = self._model(rng, nv)
+        ntrait, U, beta, extras = self._model(rng, nv)
         xo = [rng.choice([0.5, 0.5, 0.25, 0.1, 0.0, 0.375]) for _ in range(nv)]
         xo[0] = 0.5
         gens = []
@@ -350,6 +405,7 @@ class C10(Prop):
         case = {"kind": "programme", "nv": nv, "ntrait": ntrait, "U": U, "beta": beta, "xo": canon.enc(xo),
                 "founders": G, "n0": n0, "seed": rng.randrange(2 ** 31), "gens": gens,
                 "rng": rng.choice(["pcg64", "scripted", "scripted", "mt19937", "randomstate"])}
+        case.update(extras)
         if feat:
             case["features"] = sorted(feat)
         if "unsorted" in feat:
@@ -390,7 +446,7 @@ class C10(Prop):
                 loci[j][inbred] = [rng.choice([0, 1])] * k
         Z = [[sum(loci[j][i]) for j in range(nv)] for i in range(n0)]
         G = [[[loci[j][i][c] for j in range(nv)] for i in range(n0)] for c in range(k)]
-        ntrait, U, beta = self._model(rng, nv)
+        ntrait, U, beta, extras = self._model(rng, nv)
         steps, n = [], n0
         members = list(range(n0))
         for si in range(rng.choice([1, 2, 3])):
@@ -410,6 +466,7 @@ class C10(Prop):
         c = {"kind": "uhist", "nv": nv, "ntrait": ntrait, "U": U, "beta": beta, "ploidy": k, "steps": steps,
              "touch": [rng.choice(TOUCH) for _ in range(rng.choice([0, 2, 4]))],
              "idx_dtype": rng.choice(["int64", "int64", "int32", "int16", "uint8"] if n0 <= 255 else ["int64", "int32"])}
+        c.update(extras)
         if phased:
             c["G"] = G
         else:
@@ -530,6 +587,65 @@ class C10(Prop):
         out.append({"kind": "wide", "n": 120, "nv": 7, "seed": 6, "ncross": 5, "nself": 1,
                     "runs": [["TwoWayCross", "int8"], ["SelfCross", "int8"], ["FourWayDHCross", "int8"],
                              ["ThreeWayCross", "uint8"]]})
+        # D62: `ploidy` handed to usl(Z, ploidy) / lsl(Z, ploidy) as a numpy int8 scalar (e.g. Z.max()): ploidy * shape[0] wraps
+        # for 64 <= n <= 127 diploid taxa; the fixed population at n = 98 gets limits 0 / 0 around the common value 4
+        out.append({"kind": "static", "path": "ndarray", "nv": 2, "ntrait": 1, "U": [[3], [-1]], "beta": [[0]], "ploidy_np": "int8",
+                    "pop": {"nt": 98, "ploidy": 2, "Z": [[2, 2] for _ in range(98)]}})
+        # ... and where the product does not wrap the numpy scalar is as good as the Python int
+        out.append({"kind": "static", "path": "ndarray", "nv": 2, "ntrait": 1, "U": [[3], [-1]], "beta": [[0]], "ploidy_np": "int8",
+                    "pop": {"nt": 49, "ploidy": 2, "Z": [[2, 2] for _ in range(48)] + [[1, 2]]}})
+        out.append({"kind": "static", "path": "ndarray", "nv": 2, "ntrait": 1, "U": [[3], [-1]], "beta": [[0]], "ploidy_np": "int64",
+                    "pop": {"nt": 98, "ploidy": 2, "Z": [[2, 2] for _ in range(97)] + [[2, 1]]}})
+        # -- classes found by independent breaking changes (round 5)
+        # miscellaneous random effects in the model (u = [u_misc; u_a]): limits and values read the marker effects only.
+        # A fixed population (the limits must collapse onto its value), a polymorphic one with the best and the worst
+        # genotype present, p_misc < / = / > the number of markers, and a programme that ends in one doubled-haploid line
+        fixedG = [[[1, 1, 0] for _ in range(3)] for _ in range(2)]
+        for um in ([[1], [-2]], [[-4], [5], [1]], [[2], [2], [-3], [7]]):
+            out.append({"kind": "static", "path": "phased", "nv": 3, "ntrait": 1, "U": [[3], [-1], [2]], "beta": [[0]],
+                        "u_misc": um, "pop": {"nt": 3, "G": fixedG}})
+        out.append({"kind": "static", "path": "unphased", "nv": 3, "ntrait": 2, "U": [[3, -1], [-1, 2], [2, "1/2"]],
+                    "beta": [[1, 0], [2, 4]], "u_misc": [[-5, 5]],
+                    "pop": {"nt": 4, "ploidy": 2, "Z": [[2, 0, 2], [0, 2, 0], [1, 1, 2], [2, 1, 1]]}})
+        out.append({"kind": "static", "path": "ndarray", "nv": 2, "ntrait": 1, "U": [[1], [-2]], "beta": [[0]],
+                    "u_misc": [[-3]], "noploidy": True, "pop": {"nt": 3, "ploidy": 2, "Z": [[2, 0], [0, 2], [1, 1]]}})
+        out.append({"kind": "programme", "nv": 3, "ntrait": 1, "U": [[1], [-1], [2]], "beta": [[0]], "u_misc": [[-2], [3]],
+                    "xo": canon.enc([0.5, 0.25, 0.5]), "n0": 4, "seed": 11,
+                    "founders": [[[1, 0, 1], [0, 1, 1], [1, 1, 0], [0, 0, 1]], [[0, 0, 1], [1, 1, 1], [1, 0, 0], [0, 1, 1]]],
+                    "gens": [{"select": [0, 1], "protocol": "TwoWayDHCross", "xconfig": [[0, 1]], "nmating": 1,
+                              "nprogeny": 5, "nself": 0},
+                             {"select": [2], "protocol": "SelfCross", "xconfig": [[0]] * 3, "nmating": 1,
+                              "nprogeny": 3, "nself": 1}]})
+        # one model object used in several steps: constructed, (asked once), marker effects edited IN PLACE - a trait turned
+        # around through the getter's array, single effects overwritten through the array handed to the constructor, a
+        # constant subtracted - or re-assigned through the setter, (copied), then asked for limits and values
+        polyG = [[[1, 0, 1], [0, 1, 0], [1, 1, 0], [0, 0, 1]], [[1, 0, 1], [0, 1, 0], [0, 1, 1], [1, 0, 0]]]
+        hist = [("getter", True, None, [{"op": "scale_col", "t": 0, "c": -1}], [[-3], [1], [-2]]),
+                ("ctor", False, None, [{"op": "set", "j": 0, "t": 0, "v": -2}, {"op": "set", "j": 1, "t": 0, "v": 0}], [[-2], [0], [2]]),
+                ("getter", True, "deepcopy", [{"op": "add", "v": -2}], [[1], [-3], [0]]),
+                ("setter", True, None, [{"op": "scale_col", "t": 0, "c": -2}], [[-6], [2], [-4]]),
+                ("ctor", True, "copy", [{"op": "scale_col", "t": 0, "c": -1}, {"op": "set", "j": 2, "t": 0, "v": 1}], [[-3], [1], [1]])]
+        for via, prime, then, eu, U in hist:
+            for G in (polyG, fixedG):
+                out.append({"kind": "static", "path": "phased", "nv": 3, "ntrait": 1, "U": U, "beta": [[1]],
+                            "model_ops": {"U0": [[3], [-1], [2]], "beta0": [[1]], "edits_u": eu, "edits_b": [], "via": via,
+                                          "prime": prime, "then": then},
+                            "pop": {"nt": len(G[0]), "G": G}})
+        # the fixed effects edited in place as well (the location of unscale=True and of gebv().unscale())
+        out.append({"kind": "static", "path": "unphased", "nv": 2, "ntrait": 2, "U": [[1, 2], [-1, "1/2"]], "beta": [[3, -4], [4, -1]],
+                    "u_misc": [[9, 9]],
+                    "model_ops": {"U0": [[1, -2], [-1, "-1/2"]], "beta0": [[1, 2], [2, -1]], "via": "getter", "prime": True,
+                                  "then": None, "edits_u": [{"op": "scale_col", "t": 1, "c": -1}],
+                                  "edits_b": [{"op": "add", "v": 2}, {"op": "scale_col", "t": 1, "c": -1}]},
+                    "pop": {"nt": 3, "ploidy": 4, "Z": [[4, 0], [0, 4], [3, 1]]}})
+        # ... and along a programme (the edited model is the model of the whole history)
+        out.append({"kind": "programme", "nv": 3, "ntrait": 1, "U": [[-1], [1], [2]], "beta": [[0]],
+                    "model_ops": {"U0": [[1], [-1], [-2]], "beta0": [[0]], "via": "getter", "prime": True, "then": None,
+                                  "edits_u": [{"op": "scale_col", "t": 0, "c": -1}], "edits_b": []},
+                    "xo": canon.enc([0.5, 0.25, 0.5]), "n0": 4, "seed": 3,
+                    "founders": [[[1, 0, 1], [0, 1, 1], [1, 1, 0], [0, 0, 1]], [[0, 0, 1], [1, 1, 1], [1, 0, 0], [0, 1, 1]]],
+                    "gens": [{"select": [0, 1, 2], "protocol": "TwoWayCross", "xconfig": [[0, 1], [1, 2]], "nmating": 1,
+                              "nprogeny": 3, "nself": 1}]})
         return out
 
     def exhaustive(self, tier):
@@ -583,12 +699,58 @@ class C10(Prop):
         return out
 
     # ------------------------------------------------------------------ implementation
+    @staticmethod
+    def _edit_inplace(arr, e):
+        """one in-place edit of an effect matrix (numpy semantics; mirrored by SelLimit.applyEdit)"""
+        if e["op"] == "scale_col":
+            arr[:, e["t"]] *= _f(e["c"])
+        elif e["op"] == "set":
+            arr[e["j"], e["t"]] = _f(e["v"])
+        elif e["op"] == "add":
+            arr += _f(e["v"])
+        else:
+            raise ValueError(e["op"])
+
     def _gm(self, case):
+        """the model object of the case.  Plain: constructed from U / beta (and u_misc).  With `model_ops`: constructed
+        from U0 / beta0, optionally asked for limits and values once (`prime`), then edited - IN PLACE through the array
+        the getter hands out (`getter`), through the array that was handed to the constructor (`ctor`: the model aliases
+        it; if it does not, through the getter), or by re-assignment through the setter (`setter`) - and optionally
+        copied (`then`); the effects after the edits are U / beta."""
         gmod = _mods()[0]
-        U = numpy.array([[_f(v) for v in r] for r in case["U"]], dtype=float).reshape(case["nv"], case["ntrait"])
-        beta = numpy.array([[_f(v) for v in r] for r in case["beta"]], dtype=float).reshape(-1, case["ntrait"])
-        return gmod.DenseAdditiveLinearGenomicModel(beta=beta, u_misc=None, u_a=U,
-                                                    trait=numpy.array([f"t{i}" for i in range(case["ntrait"])], dtype=object))
+        nv, nt = case["nv"], case["ntrait"]
+        arr = lambda M, rows: numpy.array([[_f(v) for v in r] for r in M], dtype=float).reshape(rows, nt)
+        mo = case.get("model_ops")
+        U = arr(mo["U0"] if mo else case["U"], nv)
+        beta = arr(mo["beta0"] if mo else case["beta"], -1)
+        um = arr(case["u_misc"], -1) if case.get("u_misc") is not None else None
+        gm = gmod.DenseAdditiveLinearGenomicModel(beta=beta, u_misc=um, u_a=U,
+                                                  trait=numpy.array([f"t{i}" for i in range(nt)], dtype=object))
+        if not mo:
+            return gm
+        if mo.get("prime"):
+            Z0 = numpy.array([[2] * nv, [0] * nv, [1] * nv], dtype="int8")
+            gm.usl(Z0), gm.lsl(Z0), gm.usl(Z0, unscale=True), gm.lsl(Z0, unscale=True), gm.gebv_numpy(Z0)
+            gm.gebv(Z0).unscale()
+            gm.usl_numpy(numpy.full(nv, 0.5), 2), gm.lsl_numpy(numpy.full(nv, 1.0), 2, True)
+        via = mo.get("via", "getter")
+        for name, given, edits in (("u_a", U, mo.get("edits_u") or []), ("beta", beta, mo.get("edits_b") or [])):
+            for e in edits:
+                if via == "setter":
+                    new = numpy.array(getattr(gm, name), copy=True)
+                    self._edit_inplace(new, e)
+                    setattr(gm, name, new)
+                elif via == "ctor" and getattr(gm, name) is given:
+                    self._edit_inplace(given, e)
+                else:
+                    self._edit_inplace(getattr(gm, name), e)
+        if mo.get("then") == "copy":
+            import copy
+            gm = copy.copy(gm)
+        elif mo.get("then") == "deepcopy":
+            import copy
+            gm = copy.deepcopy(gm)
+        return gm
 
     @staticmethod
     def _touch(obj, touch):
@@ -598,17 +760,19 @@ class C10(Prop):
             f(dt) if dt is not None else f()
 
     @staticmethod
-    def _observe(gm, obj, Z, ploidy, as_array=False, touch=None, noploidy=False):
+    def _observe(gm, obj, Z, ploidy, as_array=False, touch=None, noploidy=False, ploidy_np=None):
         """limits, breeding values and frequencies of one population as the implementation reports them.
         `touch`: read-only statistics called on the object first, between the limit evaluations and before the
         frequencies are read.  For diploid populations the limits are ALSO requested through the documented ndarray
         form without a ploidy argument (`usl(Z)`: the default is 2) — keys `*_nd`."""
         touch = list(touch or [])
         if as_array:
-            kw = {} if noploidy else {"ploidy": ploidy}
-            o = {"usl": gm.usl(Z, **kw), "lsl": gm.lsl(Z, **kw),
-                 "usl_un": gm.usl(Z, unscale=True, **kw), "lsl_un": gm.lsl(Z, unscale=True, **kw),
-                 "gebv_un": gm.gebv(Z).unscale(), "afreq": Z.sum(0) / (ploidy * Z.shape[0])}
+            pl = numpy.dtype(ploidy_np).type(ploidy) if ploidy_np else ploidy     # a numpy integer scalar is an Integral
+            kw = {} if noploidy else {"ploidy": pl}
+            with numpy.errstate(over="ignore"):
+                o = {"usl": gm.usl(Z, **kw), "lsl": gm.lsl(Z, **kw),
+                     "usl_un": gm.usl(Z, unscale=True, **kw), "lsl_un": gm.lsl(Z, unscale=True, **kw),
+                     "gebv_un": gm.gebv(Z).unscale(), "afreq": Z.sum(0) / (pl * Z.shape[0])}
         else:
             C10._touch(obj, touch[0::3])
             o = {"usl": gm.usl(obj)}
@@ -732,7 +896,7 @@ class C10(Prop):
             Z = numpy.array(pop["Z"], dtype="int8").reshape(pop["nt"], nv)
             if case["path"] == "ndarray":
                 return {"gens": [self._observe(gm, None, Z, pop["ploidy"], as_array=True,
-                                               noploidy=bool(case.get("noploidy")))]}
+                                               noploidy=bool(case.get("noploidy")), ploidy_np=case.get("ploidy_np"))]}
             obj = ug.DenseGenotypeMatrix(Z, ploidy=pop["ploidy"], **mkw)
             return {"gens": [self._observe(gm, obj, Z, pop["ploidy"])]}
         idt = case.get("idx_dtype", "int64")
@@ -884,7 +1048,15 @@ class C10(Prop):
         """[(label, request)]: the judge finds its answers by label"""
         base = {"nv": case["nv"], "ntrait": case["ntrait"], "U": case["U"], "beta": case["beta"]}
         pops = [case["pop"]] if case["kind"] == "static" else [obs["pop"]] if case["kind"] == "big" else obs["pops"]
-        out = [(f"limits{i}", dict(base, op="c10.limits", pop=p)) for i, p in enumerate(pops)]
+        lim = dict(base)
+        if case.get("model_ops"):       # the model derives the effects from the arrays at construction + the edits
+            mo = case["model_ops"]
+            lim.update(U0=mo["U0"], beta0=mo["beta0"], edits_u=mo.get("edits_u") or [], edits_b=mo.get("edits_b") or [])
+        if case.get("u_misc") is not None:
+            lim["u_misc"] = case["u_misc"]
+        if case.get("ploidy_np"):
+            lim["ploidy_bits"] = 8 * numpy.dtype(case["ploidy_np"]).itemsize
+        out = [(f"limits{i}", dict(lim, op="c10.limits", pop=p)) for i, p in enumerate(pops)]
         keys = ("usl", "lsl", "usl_un", "lsl_un", "gebv_raw", "gebv_un")
         out.append(("spec", dict(base, op="c10.spec", tol=canon.enc(TOL), pops=pops,
                                  obs=[{k: o[k] for k in keys} for o in obs["gens"]])))
@@ -941,6 +1113,9 @@ class C10(Prop):
         spec_nd = ans.get("spec_nd", {"ok": True, "detail": ""})
         if not all(m["valid"] for m in lim) and case["kind"] in ("static", "big"):
             raise RuntimeError("generator produced an invalid population")
+        if case.get("model_ops") and any([[Fraction(v) for v in r] for r in m[k]] != [[Fraction(v) for v in r] for r in case[c]]
+                                         for m in lim for k, c in (("U_eff", "U"), ("beta_eff", "beta"))):
+            raise RuntimeError("generator: U / beta are not the arrays at construction after the edits")
         bad = []
         for gi, (m, o) in enumerate(zip(lim, obs["gens"])):
             if m["afreq"] != o["afreq"] and not all(
@@ -953,7 +1128,7 @@ class C10(Prop):
                     bad.append(f"gen{gi}.{k}")
             for k in ("usl", "lsl", "usl_un", "lsl_un"):
                 kn = k.replace("sl", "sl_nd", 1)
-                if kn in o and not canon.close_enc(m[k], o[kn], rel=1e-9, abs_=1e-9):
+                if kn in o and not case.get("ploidy_np") and not canon.close_enc(m[k], o[kn], rel=1e-9, abs_=1e-9):
                     bad.append(f"gen{gi}.{kn}")
         if case["kind"] == "uhist":
             for i in range(len(case["steps"])):
@@ -999,7 +1174,60 @@ class C10(Prop):
                 "detail": detail}
 
     def signature(self, case, obs, verdict):
-        return {"kind": case["kind"], "clauses": (verdict.get("detail", "").split("]")[0])[:200]}
+        sig = {"kind": case["kind"], "clauses": (verdict.get("detail", "").split("]")[0])[:200]}
+        if case.get("ploidy_np") and case["kind"] == "static" and case.get("path") == "ndarray" and not case.get("noploidy"):
+            n, k = case["pop"]["nt"], case["pop"]["ploidy"]
+            bits = 8 * numpy.dtype(case["ploidy_np"]).itemsize
+            if k * n >= 2 ** (bits - 1) and n < 2 ** (bits - 1):          # the product wraps, shape[0] itself still fits
+                sig["cond"] = "numpy_scalar_ploidy_product_wraps"
+        return sig
+
+    @staticmethod
+    def _retrait(case):
+        """the case restricted to its first trait (every per-trait array, also those of the model object's history)"""
+        c = dict(case, ntrait=1, U=[r[:1] for r in case["U"]], beta=[r[:1] for r in case["beta"]])
+        if case.get("u_misc") is not None:
+            c["u_misc"] = [r[:1] for r in case["u_misc"]]
+        mo = case.get("model_ops")
+        if mo:
+            c["model_ops"] = dict(mo, U0=[r[:1] for r in mo["U0"]], beta0=[r[:1] for r in mo["beta0"]],
+                                  edits_u=[e for e in mo.get("edits_u") or [] if e.get("t", 0) == 0],
+                                  edits_b=[e for e in mo.get("edits_b") or [] if e.get("t", 0) == 0])
+        return c
+
+    @staticmethod
+    def _unlocus(case, j):
+        """U (and the model object's history) without marker j"""
+        c = {"U": case["U"][:j] + case["U"][j + 1:]}
+        mo = case.get("model_ops")
+        if mo:
+            eu = [dict(e, j=e["j"] - 1) if e["op"] == "set" and e["j"] > j else e
+                  for e in mo.get("edits_u") or [] if not (e["op"] == "set" and e["j"] == j)]
+            c["model_ops"] = dict(mo, U0=mo["U0"][:j] + mo["U0"][j + 1:], edits_u=eu)
+        return c
+
+    def _shrink_model(self, case):
+        """simpler model objects: no miscellaneous effects, fewer of them; no history (constructed from the final
+        arrays), no priming call, no copy, edits through the getter, one edit less"""
+        if case.get("u_misc") is not None:
+            yield {k: v for k, v in case.items() if k != "u_misc"}
+            if len(case["u_misc"]) > 1:
+                yield dict(case, u_misc=case["u_misc"][:1])
+        mo = case.get("model_ops")
+        if not mo:
+            return
+        yield {k: v for k, v in case.items() if k != "model_ops"}
+        if mo.get("prime"):
+            yield dict(case, model_ops=dict(mo, prime=False))
+        if mo.get("then"):
+            yield dict(case, model_ops=dict(mo, then=None))
+        if mo.get("via", "getter") != "getter":
+            yield dict(case, model_ops=dict(mo, via="getter"))
+        for key, tgt, src in (("edits_u", "U", "U0"), ("edits_b", "beta", "beta0")):
+            es = mo.get(key) or []
+            for i in range(len(es)):
+                es2 = es[:i] + es[i + 1:]
+                yield dict(case, **{tgt: canon.enc(self._apply_edits(mo[src], es2)), "model_ops": dict(mo, **{key: es2})})
 
     def shrink(self, case):
         if case["kind"] in ("sweep",):
@@ -1010,10 +1238,12 @@ class C10(Prop):
                     yield dict(case, runs=case["runs"][:i] + case["runs"][i + 1:])
             return
         if case["kind"] == "big":
+            yield from self._shrink_model(case)
             if case["n"] > 50000:
                 yield dict(case, n=max(50000, case["n"] // 2))
             return
         nv = case["nv"]
+        yield from self._shrink_model(case)
         for key in ("layout", "neg_idx"):
             if case.get(key):
                 yield {k: v for k, v in case.items() if k != key}
@@ -1030,7 +1260,7 @@ class C10(Prop):
                 yield dict(case, touch=[])
                 yield dict(case, touch=case["touch"][:1])
             if case["ntrait"] > 1:
-                yield dict(case, ntrait=1, U=[r[:1] for r in case["U"]], beta=[r[:1] for r in case["beta"]])
+                yield self._retrait(case)
             return
         if case["kind"] == "static":
             pop = case["pop"]
@@ -1059,9 +1289,9 @@ class C10(Prop):
                         p["G"] = [[r[:j] + r[j + 1:] for r in ph] for ph in pop["G"]]
                     else:
                         p["Z"] = [r[:j] + r[j + 1:] for r in pop["Z"]]
-                    yield dict(case, nv=nv - 1, pop=p, U=case["U"][:j] + case["U"][j + 1:])
+                    yield dict(case, nv=nv - 1, pop=p, **self._unlocus(case, j))
             if case["ntrait"] > 1:
-                yield dict(case, ntrait=1, U=[r[:1] for r in case["U"]], beta=[r[:1] for r in case["beta"]])
+                yield self._retrait(case)
         else:
             if len(case["gens"]) > 1:
                 yield dict(case, gens=case["gens"][:-1])
@@ -1077,7 +1307,7 @@ class C10(Prop):
             if case.get("touch0"):
                 yield dict(case, touch0=[])
             if case["ntrait"] > 1:
-                yield dict(case, ntrait=1, U=[r[:1] for r in case["U"]], beta=[r[:1] for r in case["beta"]])
+                yield self._retrait(case)
 
     # ------------------------------------------------------------------ self-test mutants
     def mutants(self):
@@ -1284,7 +1514,75 @@ class C10(Prop):
         def p_afreq_via_acount(self, dtype=None):
             return cast(self.acount() / (self.ploidy * self.ntaxa), dtype)
 
+        # -- classes found by independent breaking changes (round 5)
+        def make_limit_from(effects):
+            """usl_numpy / lsl_numpy with the marker effects (and the sign test) taken from `effects(self, p)`"""
+            def mk(pos_test, neg_test):
+                def f(self, p, ploidy, unscale=False, **kw):
+                    p = p[:, None]
+                    u_a, pos = effects(self, p)
+                    out = (float(ploidy) * u_a * numpy.where(pos, pos_test(p), neg_test(p))).sum(0)
+                    if unscale:
+                        out = out + loc(self)
+                    return out
+                return f
+            return mk(gt0, ge1), mk(ge1, gt0)
+
+        def _u_block(self, p):          # 'the marker block of u': right only while u_misc is empty
+            u = self.u[:len(p)]
+            return u, u > 0.0
+        usl_ublock, lsl_ublock = make_limit_from(_u_block)
+
+        def _stale_mask(self, p):       # the sign mask is computed by the setter and never refreshed
+            return self.u_a, self._u_a_pos
+        usl_stale, lsl_stale = make_limit_from(_stale_mask)
+        _ua_prop = GM.__dict__["u_a"]
+
+        def _ua_set_mask(self, value):
+            _ua_prop.fset(self, value)
+            self._u_a_pos = (value > 0.0)
+        ua_with_mask = property(_ua_prop.fget, _ua_set_mask, _ua_prop.fdel, _ua_prop.__doc__)
+
+        def _lazy_product(self, p):     # ploidy-free product memoised at the first limit evaluation (a COPY of u_a)
+            memo = self.__dict__.get("_ua_memo")
+            if memo is None:
+                memo = self.__dict__["_ua_memo"] = numpy.array(self.u_a, copy=True)
+            return memo, memo > 0.0
+        usl_lazy, lsl_lazy = make_limit_from(_lazy_product)
+
+        def ua_set_drops_memo(self, value):
+            _ua_prop.fset(self, value)
+            self.__dict__.pop("_ua_memo", None)
+        ua_memo_prop = property(_ua_prop.fget, ua_set_drops_memo, _ua_prop.fdel, _ua_prop.__doc__)
+
+        _beta_prop = GM.__dict__["beta"]
+
+        def _beta_set_loc(self, value):
+            _beta_prop.fset(self, value)
+            nf = value.shape[0]
+            X = numpy.full((1, nf), 1 / nf)
+            X[0, 0] = 1
+            self._loc_memo = (X @ value).ravel()         # location computed once by the setter
+
+        beta_with_loc = property(_beta_prop.fget, _beta_set_loc, _beta_prop.fdel, _beta_prop.__doc__)
+
+        def limit_loc_memo(pos_test, neg_test):
+            def f(self, p, ploidy, unscale=False, **kw):
+                p = p[:, None]
+                out = (float(ploidy) * self.u_a * numpy.where(self.u_a > 0.0, pos_test(p), neg_test(p))).sum(0)
+                if unscale:
+                    out = out + self._loc_memo
+                return out
+            return f
+
         return [
+            ("limits_read_marker_block_of_u_without_misc_offset", lambda: patch((GM, "usl_numpy", usl_ublock), (GM, "lsl_numpy", lsl_ublock))),
+            ("effect_sign_mask_precomputed_by_setter", lambda: patch((GM, "u_a", ua_with_mask), (GM, "usl_numpy", usl_stale),
+                                                                      (GM, "lsl_numpy", lsl_stale))),
+            ("effects_memoised_at_first_limit_call", lambda: patch((GM, "u_a", ua_memo_prop), (GM, "usl_numpy", usl_lazy),
+                                                                    (GM, "lsl_numpy", lsl_lazy))),
+            ("location_precomputed_by_beta_setter", lambda: patch((GM, "beta", beta_with_loc), (GM, "usl_numpy", limit_loc_memo(gt0, ge1)),
+                                                                   (GM, "lsl_numpy", limit_loc_memo(ge1, gt0)))),
             ("usl_lsl_masked_variants_count_as_lost", lambda: patch((GM, "usl", limit_masked_variants_lost("usl_numpy")),
                                                                      (GM, "lsl", limit_masked_variants_lost("lsl_numpy")))),
             ("phased_ploidy_is_constructor_default", lambda: patch((PG, "ploidy", pg_ploidy_default))),
